@@ -77,7 +77,9 @@ def runUpatch (ts : List String) : List String :=
   let outs := (List.range tables.length).map (fun k =>
     let at' := pad + 8 * k
     -- as coded now: the patch offset is read as an unsigned short; the opcode test always passes for F_SWITCH
-    if !(patchApplies Gen.C17.fSwitch (((tables.getD k []).length.log2) * 16 + 15)) || at' ≥ 65536 then none
+    -- the patch entry is the low 16 bits of the offset, read back through the cast found in the source
+    if !(patchApplies Gen.C17.fSwitch (((tables.getD k []).length.log2) * 16 + 15)) || at' ≥ 65536
+        || readPatchOffset Gen.C17.patchInOffsetCast (at' % 65536) != (at' : Int) then none
     else
       match patchInTable sp (tables.getD k []) with
       | none => none
